@@ -189,6 +189,22 @@ def evaluate(run, cases, fixes):
     terms = [f"(run10 {cc.cconfig(cfg, fixes)} {cc.frames_term(cfg, hist, recs)})"
              for (cfg, hist), recs in zip(cases, recs_all)]
     model = core.coq_eval_sharded(PREAMBLE, terms, "fun x => x", RENDER, shard=60, jobs=12)
+    # the same recorded data through C09's checked run: NaN pattern of every matrix = candidates in the model's
+    # queues, answers valid / greedy runs (ties the queue bookkeeping, which the identity oracle cannot see)
+    checked = core.coq_eval_sharded(cc.PREAMBLE, [cc.case_term(cfg, hist, recs, fixes)
+                                                  for (cfg, hist), recs in zip(cases, recs_all)],
+                                    "run_case", "rresult", shard=60, jobs=12)
+    queue_bad = 0
+    for (cfg, hist), (mres, _) in zip(cases, checked):
+        for k, (o, chk, cands) in enumerate(mres):
+            if not (chk[1] and chk[2] and chk[3]):
+                queue_bad += 1
+                if len(run.proof_broken) < 8:
+                    run.proof_broken.append(f"C10 scene, frame {k}: nan_consistent={chk[1]} answer_valid={chk[2]} "
+                                            f"greedy_run={chk[3]}; case {json.dumps(cc.hist_json(cfg, hist))[:1200]}")
+    run.obligation("model-side checks on every recorded call of every scene: NaN pattern of the score matrix = "
+                   "candidates the model's queues hold; answers valid; greedy answers are greedy runs",
+                   queue_bad == 0, f"{queue_bad} calls")
     st = run.coverage.setdefault("steps", {})
 
     def bump(k, n=1):
